@@ -21,7 +21,7 @@ const RULE: &str = "cases = (operation in {write, write to a destination accepti
 append piece size, number of files, interleaving on/off), each executed twice in a worker process of its own: streaming S bytes \
 and streaming k*S bytes (quick: 32 MiB vs 128 MiB; thorough: 64 MiB vs 1 GiB) from an on-the-fly generator into a counting \
 sink (inputs of repair / extract are files under /verif/.work). Oracle: peak live heap measured by a counting global \
-allocator during the operation stays <= 96 MiB and peak(k*S) <= peak(S) + 64 KiB + 5 % + 32 bytes per additional non-contiguous run (the statement allows a term proportional to the number of runs); directed cases stream one file as many small contiguous pieces. A second family keeps the bytes \
+allocator during the operation stays <= 96 MiB and peak(k*S) <= peak(S) + 64 KiB + 5 % + 32 bytes per additional non-contiguous run (the statement allows a term proportional to the number of runs); directed cases stream one file as many small contiguous pieces, also with an append of 0 bytes to a second open file after every piece. A second family keeps the bytes \
 constant and multiplies the number of files by 4: growth must stay <= 2 KiB per additional file (the statement allows a term \
 proportional to the number of files). A third family measures the `mlar` process itself (peak resident set from wait4) for \
 create from a regular file / from a pipe given as /dev/stdin / with encryption, extract, repair and cat, with 8 MiB and \
@@ -51,6 +51,10 @@ pub struct Case {
     /// write only: the destination accepts at most this many bytes per call (0 = everything)
     #[serde(default)]
     pub sink_cap: u32,
+    /// write only, files one after the other: a second file stays open meanwhile and receives an append of 0 bytes
+    /// after every piece (a polled source with nothing to give)
+    #[serde(default)]
+    pub idle_appends: bool,
 }
 
 fn write_archive<W: std::io::Write>(c: &Case, total: u64, nfiles: usize, sink: W) -> Result<W, String> {
@@ -87,6 +91,7 @@ fn write_archive<W: std::io::Write>(c: &Case, total: u64, nfiles: usize, sink: W
             start += group;
         }
     } else {
+        let idle = if c.idle_appends { Some(w.start_file("idle").map_err(|e| format!("{e:?}"))?) } else { None };
         for i in 0..nfiles {
             let id = w.start_file(&format!("f{i}")).map_err(|e| format!("{e:?}"))?;
             let mut src = GenSource::new(class, c.seed as u64 + i as u64, per_file);
@@ -95,8 +100,14 @@ fn write_archive<W: std::io::Write>(c: &Case, total: u64, nfiles: usize, sink: W
                 let n = left.min(piece);
                 w.append_file_content(id, n, &mut src).map_err(|e| format!("{e:?}"))?;
                 left -= n;
+                if let Some(idle) = idle {
+                    w.append_file_content(idle, 0, &[][..]).map_err(|e| format!("{e:?}"))?;
+                }
             }
             w.end_file(id).map_err(|e| format!("{e:?}"))?;
+        }
+        if let Some(idle) = idle {
+            w.end_file(idle).map_err(|e| format!("{e:?}"))?;
         }
     }
     w.finalize().map_err(|e| format!("{e:?}"))?;
@@ -221,7 +232,7 @@ pub fn worker(args: &[String]) -> i32 {
 
 pub fn judge(c: &Case, a: usize, b: usize, thorough: bool) -> Result<(), String> {
     let mib = |x: usize| x as f64 / (1 << 20) as f64;
-    let opn = if c.sink_cap != 0 { "write (destination accepts part of each write)" } else if c.short_source { "write (source ends early)" } else if c.unauth { "repair (unauthenticated mode)" } else { ["write", "repair", "linear extract"][(c.op % 3) as usize] };
+    let opn = if c.idle_appends { "write (empty appends to a second open file after every piece)" } else if c.sink_cap != 0 { "write (destination accepts part of each write)" } else if c.short_source { "write (source ends early)" } else if c.unauth { "repair (unauthenticated mode)" } else { ["write", "repair", "linear extract"][(c.op % 3) as usize] };
     if c.family == 0 {
         if b > 96 << 20 {
             return Err(format!("{opn} ({}, level {}): peak heap {:.1} MiB while streaming the larger amount (ceiling 96 MiB)", prog::layers_name(c.layers), c.level, mib(b)));
@@ -276,7 +287,7 @@ fn case() -> impl Strategy<Value = Case> {
             let piece = if op % 3 == 1 { piece.max(65536) } else { piece };
             // a third of the write cases go to a destination that accepts 4 KiB or 32 KiB per call
             let sink_cap = if op % 3 == 0 { [0u32, 0, 4096, 0, 32768, 0][(seed % 6) as usize] } else { 0 };
-            Case { op, layers, level, compressible, piece, nfiles, interleave, family, seed, unauth, short_source: false, sink_cap }
+            Case { op, layers, level, compressible, piece, nfiles, interleave, family, seed, unauth, short_source: false, sink_cap, idle_appends: false }
         })
 }
 
@@ -444,6 +455,21 @@ fn run(ctx: &Ctx) -> Report {
         c.short_source = false;
         c.sink_cap = if i % 2 == 0 { 4096 } else { 32768 };
         c.level = c.level.min(1);
+    }
+    // directed: one file streamed in small pieces while a second open file receives an empty append after each piece
+    // (an append of 0 bytes writes nothing and starts no run: nothing may accumulate for it)
+    for (i, c) in cases.iter_mut().enumerate().skip(32).take(4) {
+        c.op = 0;
+        c.layers = (i % 4) as u8;
+        c.family = 0;
+        c.unauth = false;
+        c.short_source = false;
+        c.sink_cap = 0;
+        c.interleave = false;
+        c.nfiles = 1 + (i % 2) as u16;
+        c.piece = [1024, 700, 4096, 2000][i % 4];
+        c.level = c.level.min(1);
+        c.idle_appends = true;
     }
     // directed: an append that announces the whole amount from a source that ends after 1 MiB
     for (i, c) in cases.iter_mut().enumerate().skip(24).take(4) {
